@@ -136,6 +136,7 @@ func ParseStreamCallback
 // stems from a malformed line is the one of the FIRST malformed line.
 // ---------------------------------------------------------------------------------------------
 func ParseStreamCallback variant stoponerr
+  funcparam callback parser.StopOnErr
   dyncall 1 parser.StopOnErr
   dyncall 2 parser.StopOnErr
   dyncall 3 parser.StopOnErr
@@ -258,7 +259,7 @@ func (Parser).ParseStream
 func (Parser).ParseFile
   props C18 C08 C10
   requires @distinct-channels p.Nodes != p.Errors && p.Nodes != p.Done && p.Errors != p.Done
-  modifies ghost(cbLen, cbErr, cbNode, cbStop, cbRet, cbLineNo, cbLine, cbHeader, cbElems, cbNElems, scRd, scPos, privLo, evOf, sendLen, sendChan, sendVal)
+  modifies ghost(cbLen, cbErr, cbNode, cbStop, cbRet, cbLineNo, cbLine, cbHeader, cbElems, cbNElems, scRd, scPos, privLo, evOf, sendLen, sendChan, sendVal, lastOpen)
   ensures @sends-something [C18] sendLen >= old(sendLen) + 1
   ensures @ends-with-done-or-error [C18] sendChan[sendLen - 1] == p.Done || (sendLen == old(sendLen) + 1 && sendChan[sendLen - 1] == p.Errors)
 
@@ -267,5 +268,17 @@ func ParseFileCallback
   props C08 C10
   requires callback != nil
   modifies *
-  modifies ghost(cbLen, cbErr, cbNode, cbStop, cbRet, cbLineNo, cbLine, cbHeader, cbElems, cbNElems, scRd, scPos, privLo, evOf)
+  modifies ghost(cbLen, cbErr, cbNode, cbStop, cbRet, cbLineNo, cbLine, cbHeader, cbElems, cbNElems, scRd, scPos, privLo, evOf, lastOpen)
+
+// With a stop-on-error callback (every command that reads a file by name): success means the file was opened
+// and read to its end without a malformed line; the close of the file never hides an error.
+func ParseFileCallback variant stoponerr
+  funcparam callback parser.StopOnErr
+  calluse ParseStreamCallback#1 stoponerr
+  props C08 C09 C10
+  let cc := c.CommentChar
+  ensures @opened [C10] result == nil ==> lastOpen != old(lastOpen) || FileNameOf(lastOpen) == fileName
+  ensures @fails-on-unreadable [C10] result == nil ==> FileNameOf(lastOpen) == fileName && !RdFailed(lastOpen)
+  ensures @fails-on-malformed [C09] result == nil ==> (forall i int :: {RdLine(lastOpen, i)} 0 <= i && i < RdN(lastOpen) ==> !Malformed(lastOpen, i, cc))
+  ensures @error-or-all [C10] result == nil ==> (forall j int :: {cbStop[j]} old(cbLen) <= j && j < cbLen ==> !cbStop[j] && cbErr[j] == nil)
 @*/
